@@ -59,10 +59,11 @@ def extract_box(dataset, dx, dy, dz, origin):
             )
             continue
         centered_pos = pos - origin
-        cx = (centered_pos.x <= dx * 0.5) & (centered_pos.x >= -dx * 0.5)
-        cy = (centered_pos.y <= dy * 0.5) & (centered_pos.y >= -dy * 0.5)
-        cz = (centered_pos.z <= dz * 0.5) & (centered_pos.z >= -dz * 0.5)
-        c = (cx & cy & cz).values
+        c = None
+        for xyz, size in zip(centered_pos._xyz.values(), (dx, dy, dz)):
+            inside = (xyz <= size * 0.5) & (xyz >= -size * 0.5)
+            c = inside if c is None else c & inside
+        c = c.values
         if np.any(c):
             subdomain[name] = dataset[name][c]
 
